@@ -247,7 +247,7 @@ def run_concrete(prop_mod, harness, cfg, values, seed=0):
     try:
         with warnings.catch_warnings():
             warnings.simplefilter("ignore")
-            with np.errstate(all="ignore"):
+            with np.errstate(all="ignore"), npx.suspended():
                 harness.fn(ctx)
     except PreconditionFailed:
         return {"status": "precondition", "failed": [], "uncertain": 0}
@@ -519,7 +519,7 @@ def run_job(prop, prop_mod, harness, cfg, tier, seed, known_pass=None):
                         }
                     )
 
-    extra = harness.extra_globals() if harness.extra_globals else None
+    extra = harness.extra_globals(cfg) if harness.extra_globals else None
     try:
         with npx.installed(extra):
             npx.NP.overridden.clear()
